@@ -17,7 +17,7 @@
 (* C12's names (run, step, outcome, ..) must not shadow C16.Model's: C12 is loaded FIRST and always written with its full name *)
 From RM Require C12.Model C12.Proofs.
 From RM Require Import C09.Grammar C10.Model C16.Model C16.Proofs C16.Rehit C16.Driver C16.Shared C16.SharedProofs C16.SharedProofs2 C16.Refine Gen.C16Ops.
-From RM Require C09.Model C10.Stream C16.Stream C16.StreamProofs C16.StreamInst C16.StreamProofs2 C16.StreamPins C16.StaleFlag C16.Raii C16.RaiiProofs C16.StreamRefine C16.LocateSrc Gen.C16Locate C16.StreamRaii C16.StreamRaiiProofs C16.InProcess C16.FileFetch C16.FileFetchProofs C16.FileFetchSrc.
+From RM Require C09.Model C10.Stream C16.Stream C16.StreamProofs C16.StreamInst C16.StreamProofs2 C16.StreamPins C16.StaleFlag C16.Raii C16.RaiiProofs C16.StreamRefine C16.LocateSrc Gen.C16Locate C16.StreamRaii C16.StreamRaiiProofs C16.InProcess C16.FileFetch C16.FileFetchProofs C16.FileFetchSrc C16.FileRaii C16.FileRaiiProofs.
 Open Scope Z_scope.
 
 Section Statements.
@@ -844,6 +844,38 @@ Print Assumptions c16_file_existing_never_replaced.
 Theorem c16_file_steps_are_source : RM.Gen.C16Ops.lookup_steps = RM.C16.FileFetchSrc.qstep_shape.
 Proof. exact RM.C16.FileFetchSrc.lookup_steps_as_modelled. Qed.
 Print Assumptions c16_file_steps_are_source.
+
+(* fetch_lookup under OWNERSHIP rules (C16/FileRaii.v: an interpreter for ANY list of its steps — a frame of owned locals, ONE drop site
+   applied when the frame is left by Ok / `?` / the future dropped at an await, `let mut temp = ..` drops the old value,
+   `temp.persist_noclobber(..)` takes the handle by value).  For EVERY program (any order, any repetition of the steps), every server
+   list, every event list with EDrop anywhere, every outcome of every fs call: a frame that has been left owns nothing in tmp; a
+   running one at most its one file. *)
+Theorem c16_file_raii_every_program : forall p (prog : list RM.Gen.C16Ops.lstep) f0 ss evs,
+  RM.C16.FileRaiiProofs.JInv f0 (RM.C16.FileRaii.jrun p prog (RM.C16.FileRaii.jstart prog f0 ss) evs).
+Proof. exact RM.C16.FileRaiiProofs.file_raii_any_program. Qed.
+Print Assumptions c16_file_raii_every_program.
+
+(* ... and the machine of FileFetch.v (which the c16_file_ theorems are about and which is compared with the real locate_file) IS that
+   interpreter on the step list translated from `fn fetch_lookup`, state by state: its exit edges and their drops are not hand-placed *)
+Theorem c16_file_model_is_ownership_semantics : forall p f0 ss evs,
+  RM.C16.FileRaiiProofs.qembed (FF.qrun p (FF.qnet_start f0 ss) evs)
+  = RM.C16.FileRaii.jrun p RM.Gen.C16Ops.lookup_steps (RM.C16.FileRaii.jstart RM.Gen.C16Ops.lookup_steps f0 ss) evs.
+Proof. exact RM.C16.FileRaiiProofs.file_model_is_program. Qed.
+Print Assumptions c16_file_model_is_ownership_semantics.
+
+(* a program that would NOT be safe to read as "the entry is complete" is still resource-safe; and a concrete run of the source's
+   program under the interpreter: 404, then a download in two chunks; dropped after the first chunk *)
+Example c16_nonvacuous_file_ownership :
+  let ss := [mkserver 3 [] ex_senv; mkserver 5 [] ex_senv] in
+  let evs := [EHead 404; EHead 200; EChunk [1; 2; 3]; EChunk [4; 5]; EEof] in
+  let s := RM.C16.FileRaii.jrun 7 RM.Gen.C16Ops.lookup_steps (RM.C16.FileRaii.jstart RM.Gen.C16Ops.lookup_steps ex_sfs ss) evs in
+  let d := RM.C16.FileRaii.jrun 7 RM.Gen.C16Ops.lookup_steps (RM.C16.FileRaii.jstart RM.Gen.C16Ops.lookup_steps ex_sfs ss) (firstn 3 evs ++ [EDrop]) in
+  let twice := [RM.Gen.C16Ops.LSend; RM.Gen.C16Ops.LCreateQ; RM.Gen.C16Ops.LCreateQ; RM.Gen.C16Ops.LWriteLoopQ; RM.Gen.C16Ops.LReturnOk] in
+  let w := RM.C16.FileRaii.jrun 7 twice (RM.C16.FileRaii.jstart twice ex_sfs ss) evs in
+  RM.C16.FileRaii.j_l s = RM.C16.FileRaii.JDone (FF.QFetched 5) /\ cache (RM.C16.FileRaii.j_fs s) 7 = Some (File [1; 2; 3; 4; 5]) /\ tmp (RM.C16.FileRaii.j_fs s) = [] /\
+  RM.C16.FileRaii.j_l d = RM.C16.FileRaii.JDropped /\ tmp (RM.C16.FileRaii.j_fs d) = [] /\
+  RM.C16.FileRaii.j_l w = RM.C16.FileRaii.JDone (FF.QFetched 5) /\ cache (RM.C16.FileRaii.j_fs w) 7 = None /\ tmp (RM.C16.FileRaii.j_fs w) = [].
+Proof. vm_compute. repeat split; reflexivity. Qed.
 
 (* non-vacuity: server 3 answers 404, server 5 sends the body in two chunks: entry = exactly the bytes, tmp empty; dropped after the
    first chunk (the temp file then holds it): nothing left; a directory at the path: persist_noclobber fails, NotFound, the directory stays *)
